@@ -19,7 +19,7 @@ pub fn plan() -> Plan {
         meta: Meta {
             property: "C16",
             level: "fault_enumeration",
-            rule: "blobs and indexes are produced through the Storage by random histories (key sizes 4/8/32, metas, markers, 1-4 blobs). (1) validate_blob / validate_index accept every produced file. (2) damage: truncation at every record/field boundary +-1 and random lengths (thorough: every length), one altered byte per position class (blob header magic / version / flags; record header fields; meta; data) of each record: a truncated blob must be rejected unless the cut is exactly a record boundary (decided by the independent parser), every altered blob must be rejected (classes the format cannot detect are listed as known findings), every truncated or altered index must be rejected by validate_index. (3) recovery_blob (skip on/off, validate_every 0/1/3) and move_and_recover_blob on every damaged blob: the output validates, every output record is byte-identical to an original record, it contains every intact record before the damage and - with skipping, for damage confined to the data or to non-size header fields of one record - the records after it; the output is placed in a fresh directory and opened with the Storage: the whole query surface must equal the model built from the contained records. (4) migrate_blob v1->v1 and v0->v1 (blob down-converted by the harness' own serializer) preserves every record. (5) read_index, read_index_sync, IndexSummaryCollector, BlobSummaryCollector report exactly what the independent parser sees. Non-trivial = a damaged-file case; distinct = hash(history, file, damage).",
+            rule: "blobs and indexes are produced through the Storage by random histories (key sizes 4/8/16/32/64/128 = every size the index tools dispatch on, metas, markers, 1-4 blobs). (1) validate_blob / validate_index accept every produced file. (2) damage: truncation at every record/field boundary +-1 and random lengths (thorough: every length), one altered byte per position class (blob header magic / version / flags; record header fields; meta; data) of each record: a truncated blob must be rejected unless the cut is exactly a record boundary (decided by the independent parser), every altered blob must be rejected (classes the format cannot detect are listed as known findings), every truncated or altered index must be rejected by validate_index. (3) recovery_blob (skip on/off, validate_every 0/1/3) and move_and_recover_blob on every damaged blob: the output validates, every output record is byte-identical to an original record, it contains every intact record before the damage and - with skipping, for damage confined to the data or to non-size header fields of one record - the records after it; the output is placed in a fresh directory and opened with the Storage: the whole query surface must equal the model built from the contained records. (4) migrate_blob v1->v1 and v0->v1 (blob down-converted by the harness' own serializer) preserves every record. (5) read_index, read_index_sync, IndexSummaryCollector, BlobSummaryCollector report exactly what the independent parser sees. Non-trivial = a damaged-file case; distinct = hash(history, file, damage).",
             assumptions: vec!["the independent parser defines 'well-formed' (contiguous records, valid checksums)", "verdict holds for the files and damages generated for this seed"],
         },
         shards: 16,
@@ -595,11 +595,17 @@ pub fn shard(ctx: &Ctx) -> Shard {
     while ctx.time_left() {
         let mut cfg = random_cfg(&mut rng, p.n_keys, p.n_meta, Some(true));
         cfg.validate_data = false;
+        // every key size the index tools dispatch on (read_index: 4, 8, 16, 32, 64, 128)
+        cfg.keylen = *rng.pick(&[4usize, 8, 8, 16, 32, 64, 128]);
+        sh.add(&format!("histories_keylen_{}", cfg.keylen), 1);
         let ops = gen_history(&mut rng, &p);
         let hid = ((ctx.shard as u64) << 20) | n;
         match cfg.keylen {
             4 => eval_history::<4>(ctx, &mut sh, &mut rng, &cfg, &ops, hid),
+            16 => eval_history::<16>(ctx, &mut sh, &mut rng, &cfg, &ops, hid),
             32 => eval_history::<32>(ctx, &mut sh, &mut rng, &cfg, &ops, hid),
+            64 => eval_history::<64>(ctx, &mut sh, &mut rng, &cfg, &ops, hid),
+            128 => eval_history::<128>(ctx, &mut sh, &mut rng, &cfg, &ops, hid),
             _ => eval_history::<8>(ctx, &mut sh, &mut rng, &cfg, &ops, hid),
         }
         n += 1;
